@@ -1,6 +1,8 @@
 (* Go semantics that matter to the models: explicit Panic / Blocked outcomes,
    so that totality of Gallina never makes a theorem true for the wrong reason. *)
-From Coq Require Export List Bool Arith NArith ZArith Lia String.
+From Coq Require Export String.
+From Coq Require Export List Bool Arith NArith ZArith Lia.
+(* List is exported after String so that `length`, `app` etc. are the list ones *)
 Export ListNotations.
 
 Inductive res (A : Type) : Type :=
